@@ -107,11 +107,11 @@ type RestartScn struct {
 	Native     bool   `json:"native"`
 	CrashPoint string `json:"crash_point"`
 	CrashNth   int    `json:"crash_nth"`
-	Emptied    bool   `json:"emptied"`     // restart with an emptied LMDB
-	WithB      bool   `json:"with_b"`      // a second instance runs concurrently
-	GateIters  int    `json:"gate_iters"`  // loop iterations the download of the own old snapshot is held back
-	WriteAt    string `json:"write_at"`    // when the application writes after the restart: before-start | startup.listed | startup.before_first_send | loop.top | none
-	LoadFails  int    `json:"load_fails"`  // the first k Loads of the own old snapshot fail
+	Emptied    bool   `json:"emptied"`    // restart with an emptied LMDB
+	WithB      bool   `json:"with_b"`     // a second instance runs concurrently
+	GateIters  int    `json:"gate_iters"` // loop iterations the download of the own old snapshot is held back
+	WriteAt    string `json:"write_at"`   // when the application writes after the restart: before-start | startup.listed | startup.before_first_send | loop.top | none
+	LoadFails  int    `json:"load_fails"` // the first k Loads of the own old snapshot fail
 }
 
 func (s RestartScn) ID() string {
@@ -307,14 +307,14 @@ func RunRestart(scn RestartScn, env *runner.Env, res *runner.Result) {
 // ---------------------------------------------------------------- F2/F3: fleet with cleaners and storage faults
 
 type FleetScn struct {
-	Native    bool   `json:"native"`
-	Seed      uint64 `json:"seed"`
-	NInst     int    `json:"ninst"`
-	Cleaners  bool   `json:"cleaners"`
-	Faults    string `json:"faults"` // none | store | store-after-write | list | load | delete | mixed
-	Writes    int    `json:"writes"`
-	SilentX   bool   `json:"silent_x"` // a silent, stale instance whose only snapshot holds unique data
-	CtxAware  bool   `json:"ctx_aware"`
+	Native   bool   `json:"native"`
+	Seed     uint64 `json:"seed"`
+	NInst    int    `json:"ninst"`
+	Cleaners bool   `json:"cleaners"`
+	Faults   string `json:"faults"` // none | store | store-after-write | list | load | delete | mixed
+	Writes   int    `json:"writes"`
+	SilentX  bool   `json:"silent_x"` // a silent, stale instance whose only snapshot holds unique data
+	CtxAware bool   `json:"ctx_aware"`
 }
 
 func (s FleetScn) ID() string {
@@ -570,7 +570,9 @@ func (s CleanScn) ID() string {
 // another stale instance y appear; a merges them without any local change (so it does not upload), while the cleaner
 // keeps running; only then the application writes once more. which = "C05" reports the conservation monitor,
 // "C12" the deletion policy (a stale instance's newest snapshot only after an own successful Store that followed its merge).
-func RunCleanForced(scn CleanScn, env *runner.Env, res *runner.Result) { runCleanForced(scn, env, res, "C05") }
+func RunCleanForced(scn CleanScn, env *runner.Env, res *runner.Result) {
+	runCleanForced(scn, env, res, "C05")
+}
 
 // RunCleanForcedPolicy is the same execution judged by the cleaner policy (C12).
 func RunCleanForcedPolicy(scn CleanScn, env *runner.Env, res *runner.Result) {
